@@ -30,7 +30,8 @@ PROBES = ['compile_race_second_thread_blocked_on_cooklock',
           'strategy_one_preemption',
           'strategy_two_preemptions', 'strategy_pct', 'strategy_random_walk',
           'strategy_write_biased', 'strategy_lock_barrier',
-          'strategy_handover', 'handover_thread_parked_after_the_write',
+          'strategy_handover', 'strategy_store_split',
+          'handover_thread_parked_after_the_write',
           'all_threads_parked_in_front_of_the_compile_lock',
           'switch_right_after_attribute_write',
           'one_thread_failed_others_fine', 'parse_error_template',
@@ -57,7 +58,11 @@ RULE = ('templates: generator-A programs over every block tag (per-thread '
         'then a random walk or write-biased), and "hand-over": one thread '
         'is parked right after a chosen write line (each distinct storing '
         'line of its solo profile in turn), optionally after a race to the '
-        'lock in which another thread went first and released it.  An '
+        'lock in which another thread went first and released it, and (store '
+        'mode) "store split": a thread is parked in front of a store '
+        'instruction, after the reads of that line, while another runs into '
+        'the middle of its call; 30% of the cases render the shared template '
+        'once before the race.  An '
         'evaluation is one schedule '
         'executed; after every schedule each call is made once more on '
         'the same template, one at a time, and must still give the solo '
@@ -67,8 +72,10 @@ RULE = ('templates: generator-A programs over every block tag (per-thread '
         '(case hash, switch list).')
 ASSUMPTIONS = [
     'pre-emption granularity is the source line plus a yield inside every '
-    'scripted call-back (opcode tracing crashes CPython 3.12.1 and is not '
-    'used); C-level operations are atomic under the GIL',
+    'scripted call-back; in store mode (a fifth of the cases) also the '
+    'instruction in front of every attribute / item store of package code '
+    '(tracing every opcode of every frame crashes CPython 3.12.1 and is '
+    'not used); C-level operations are atomic under the GIL',
     'package-created locks are simulated through the import-time '
     'threading.Lock / RLock factory; locks created elsewhere are real and '
     'never contended (only one worker runs at any instant)',
